@@ -489,6 +489,68 @@ static void search_nlsf(vrng *r, int wb, const opus_int8 *idx, const opus_int16 
    (void)i;
 }
 
+
+/* a32_QA1 of silk_NLSF2A recomputed in 64 bits (no wrap): returns max |a32_QA1[k]|; *pq gets max |P[k]|,|Q[k]|. */
+static long long a32_max64(const opus_int16 *nlsf, int d, long long *pq)
+{
+   static const unsigned char o16[16] = {0, 15, 8, 7, 4, 11, 12, 3, 2, 13, 10, 5, 6, 9, 14, 1};
+   static const unsigned char o10[10] = {0, 9, 6, 3, 4, 5, 8, 1, 2, 7};
+   const unsigned char *ord = d == 16 ? o16 : o10;
+   long long c[16], P[9], Q[9], m = 0, t;
+   int k, n, pass, dd = d / 2;
+   for (k = 0; k < d; k++) {
+      int fi = nlsf[k] >> 8, ff = nlsf[k] - (fi << 8);
+      long long cv = silk_LSFCosTab_FIX_Q12[fi], dl = silk_LSFCosTab_FIX_Q12[fi + 1] - cv;
+      c[ord[k]] = vrr64((cv << 8) + dl * ff, 4);
+   }
+   for (pass = 0; pass < 2; pass++) {
+      long long *out = pass ? Q : P; const long long *cl = c + pass;
+      out[0] = 65536; out[1] = -cl[0];
+      for (k = 1; k < dd; k++) {
+         long long f = cl[2 * k];
+         out[k + 1] = 2 * out[k - 1] - vrr64(f * out[k], 16);
+         for (n = k; n > 1; n--) out[n] += out[n - 2] - vrr64(f * out[n - 1], 16);
+         out[1] -= f;
+      }
+      for (k = 0; k <= dd; k++) { t = out[k] < 0 ? -out[k] : out[k]; if (pq && t > *pq) *pq = t; }
+   }
+   for (k = 0; k < dd; k++) {
+      long long Pt = P[k + 1] + P[k], Qt = Q[k + 1] - Q[k], a = -Qt - Pt, b = Qt - Pt;
+      if (a < 0) a = -a; if (b < 0) b = -b;
+      if (a > m) m = a; if (b > m) m = b;
+   }
+   return m;
+}
+
+static void sort16(opus_int16 *x, int d)
+{
+   int i, j;
+   for (i = 1; i < d; i++) { opus_int16 v = x[i]; for (j = i - 1; j >= 0 && v < x[j]; j--) x[j + 1] = x[j]; x[j + 1] = v; }
+}
+
+/* Range predicate of silk_NLSF2A on ORDERED inputs (the decoder's domain): a32_QA1 fits 32 bits (64-bit
+   recomputation; the open obligation of theorem nlsf2a_nowrap_d16_partial), then the real function under UBSan
+   with no truncating (opus_int16) cast. */
+static long long a32_worst = 0, pq_worst = 0;
+static void search_ordered(const opus_int16 *x, int d)
+{
+   opus_int16 a[MAX_LPC_ORDER];
+   long long m = a32_max64(x, d, &pq_worst);
+   n_search++;
+   if (m > a32_worst) a32_worst = m;
+   if (m > 2147483647LL) {
+      n_viol++; printf("V silkparams nlsf2a "); plist16(x, d);
+      printf(" | a32_QA1 of an ordered NLSF vector fits opus_int32 (no signed overflow at NLSF2A.c:125-126) | max|a32_QA1|=%lld\n", m);
+      return;                             /* the real call would trap under UBSan */
+   }
+   verif_trunc = 0;
+   silk_NLSF2A(a, x, d, 0);
+   if (verif_trunc != 0) {
+      n_viol++; printf("V silkparams nlsf2a "); plist16(x, d);
+      printf(" | no (opus_int16) cast in silk_LPC_fit / silk_NLSF2A truncates | %ld truncating casts, a=", verif_trunc); plist16(a, d); printf("\n");
+   }
+}
+
 static void run_search(uint64_t seed, long n)
 {
    vrng r; long c; int wb, cb1, i, s, prev, ind;
@@ -587,6 +649,31 @@ static void run_search(uint64_t seed, long n)
             }
          }
       }
+   }
+   /* (5) silk_NLSF2A on ordered vectors, pushed towards the largest a32_QA1 by hill climbing */
+   {
+      int d, v, t;
+      for (d = 10; d <= 16; d += 6) for (v = 0; v <= 32767; v += 37) { for (i = 0; i < d; i++) x[i] = (opus_int16)v; search_ordered(x, d); }
+      for (c = 0; c < n / 4; c++) {
+         int mode = (int)vbelow(&r, 4); long long m, m2; opus_int16 y[MAX_LPC_ORDER];
+         d = vchance(&r, 75) ? 16 : 10;
+         if (mode == 0) for (i = 0; i < d; i++) x[i] = (opus_int16)vrange(&r, 0, 32767);
+         else if (mode == 1) { int cc = vrange(&r, 0, 32767), w = vrange(&r, 1, 2000); for (i = 0; i < d; i++) { v = cc + vrange(&r, -w, w); x[i] = (opus_int16)(v < 0 ? 0 : v > 32767 ? 32767 : v); } }
+         else if (mode == 2) { int top = vchance(&r, 50), w = vrange(&r, 1, 300); for (i = 0; i < d; i++) x[i] = (opus_int16)(top ? 32767 - (int)vbelow(&r, w) : (int)vbelow(&r, w)); }
+         else { int c1 = vrange(&r, 0, 32767), c2 = vrange(&r, 0, 32767), sp = (int)vbelow(&r, d + 1), w = vrange(&r, 1, 500); for (i = 0; i < d; i++) { v = (i < sp ? c1 : c2) + (int)vbelow(&r, w); x[i] = (opus_int16)(v > 32767 ? 32767 : v); } }
+         sort16(x, d);
+         m = a32_max64(x, d, NULL);
+         for (t = 0; t < 60; t++) {
+            int j = (int)vbelow(&r, d);
+            memcpy(y, x, sizeof(y));
+            v = y[j] + vrange(&r, -1000, 1000); y[j] = (opus_int16)(v < 0 ? 0 : v > 32767 ? 32767 : v);
+            sort16(y, d);
+            m2 = a32_max64(y, d, NULL);
+            if (m2 >= m) { m = m2; memcpy(x, y, sizeof(y)); }
+         }
+         search_ordered(x, d);
+      }
+      printf("# ordered-NLSF2A worst max|a32_QA1|=%lld (%.4f of 2^31) worst max|P|,|Q|=%lld\n", a32_worst, a32_worst / 2147483648.0, pq_worst);
    }
    printf("# search cases=%ld violations=%ld\n", n_search, n_viol);
 }
